@@ -23,7 +23,7 @@ def config(tier):
     q = tier == "quick"
     return {
         "hashseeds": [0, 1] if q else [0, 1, 2, 3, 4, 5, 6, 7],
-        "families": ["G1", "G2"],
+        "families": ["G1", "G2", "W"],
         "mc": [{"module": "MCCount", "cfg": "MCCount", "workers": 4, "timeout": 900}],
         "shards": 8 if q else 16,
         "negctl": 16,
@@ -39,7 +39,7 @@ def cases(ctx):
     for p in rng.sample(g2, 300 if ctx.quick else 1500):
         cyc += C01.cyclic_variants(p, rng)
     g1s = g1 if not ctx.quick else [p for i, p in enumerate(g1) if i % 2 == ctx.seed % 2]
-    fams = [("G1", g1s), ("G2", g2s), ("GC", cyc), ("BB", C01.bb_small(rng))]
+    fams = [("G1", g1s), ("G2", g2s), ("GC", cyc), ("BB", C01.bb_small(rng)), ("W", ctx.family("W"))]
     for src, fam in fams:
         for i, p in enumerate(fam):
             r = ctx.rng("C08a", src, i)
